@@ -224,3 +224,19 @@ Print Assumptions C02_source_rootless_rule.
 Theorem C02_source_listing_sorted : gen_listing_sorted = true.
 Proof. exact gen_listing_is_sorted. Qed.
 Print Assumptions C02_source_listing_sorted.
+
+(* ... and they are the tests of the hand models of the three methods (Model/Creators.v, on nat), for every size. *)
+From TF Require Import Proofs.TraverseModel.
+Theorem C02_source_layer_test_is_the_models : forall size pl : nat, (0 < pl)%nat ->
+  (pl <? size)%nat = gen_layer_cond_TorrentFileV2 (Z.of_nat size) (Z.of_nat pl) /\
+  (pl <? size)%nat = gen_layer_cond_TorrentFileHybrid (Z.of_nat size) (Z.of_nat pl) /\
+  (pl <? size)%nat = gen_layer_cond_TorrentAssembler (Z.of_nat size) (Z.of_nat pl).
+Proof. exact model_layer_test_is_source. Qed.
+Print Assumptions C02_source_layer_test_is_the_models.
+
+Theorem C02_source_rootless_test_is_the_models : forall size pl : nat, (0 < pl)%nat ->
+  (size =? 0)%nat = gen_rootless_cond_TorrentFileV2 (Z.of_nat size) (Z.of_nat pl) /\
+  (size =? 0)%nat = gen_rootless_cond_TorrentFileHybrid (Z.of_nat size) (Z.of_nat pl) /\
+  (size =? 0)%nat = gen_rootless_cond_TorrentAssembler (Z.of_nat size) (Z.of_nat pl).
+Proof. exact model_rootless_test_is_source. Qed.
+Print Assumptions C02_source_rootless_test_is_the_models.
